@@ -45,6 +45,9 @@ type ClientCfg struct {
 	// with a weaker policy (which moves the port) followed by WithTLSPortPolicy. In every case
 	// the policy in force is TLSPolicy.
 	PolicyVia string `json:"policyVia,omitempty"`
+	// SessionCache: the caller's tls.Config has a ClientSessionCache (TLS session resumption on
+	// later connections).
+	SessionCache bool `json:"sessionCache,omitempty"`
 	// TLSConfigNoName: the caller supplies its own tls.Config that sets no ServerName (only a
 	// minimum version): whatever name is verified then, it must be the configured host's.
 	TLSConfigNoName bool `json:"tlsConfigNoName,omitempty"`
@@ -167,6 +170,10 @@ func BuildClient(c ClientCfg, dial mail.DialContextFunc, logger mlog.Logger) (*m
 	}
 	if c.HELO != "" {
 		opts = append(opts, mail.WithHELO(c.HELO))
+	}
+	if c.SessionCache {
+		// the caller's tls.Config keeps sessions: a second connection resumes the first one's
+		opts = append(opts, mail.WithTLSConfig(&tls.Config{ServerName: c.host(), MinVersion: tls.VersionTLS12, ClientSessionCache: tls.NewLRUClientSessionCache(8)}))
 	}
 	if c.TLSConfigNoName {
 		opts = append(opts, mail.WithTLSConfig(&tls.Config{MinVersion: tls.VersionTLS12}))
